@@ -56,7 +56,14 @@ class Oracle:
         self.sc, self.pc = {}, {}
         self.events = []
 
+    LIMIT = 20000         # no generated program comes anywhere near: a run that does is not following its outline any more
+
+    def _guard(self):
+        if len(self.events) > self.LIMIT:
+            raise RuntimeError('runaway outline: more than %d calls' % self.LIMIT)
+
     def step(self, f):
+        self._guard()
         i = self.sc.get(f, 0)
         self.sc[f] = i + 1
         vals = self.tabs.get('S', {}).get(f, [])
@@ -65,6 +72,7 @@ class Oracle:
         return r
 
     def pred(self, p):
+        self._guard()
         i = self.pc.get(p, 0)
         self.pc[p] = i + 1
         vals = self.tabs.get('P', {}).get(p, [])
@@ -130,7 +138,7 @@ def build_workchain(block, tabs, name='GenChain', alias=False):
     ns = {}
 
     def mk_step(f):
-        def step(self):
+        def body(self):
             r = self._oracle.step(f)
             if isinstance(r, (tuple, list)):
                 fut = self.loop.create_future()
@@ -138,12 +146,27 @@ def build_workchain(block, tabs, name='GenChain', alias=False):
                 self.to_context(extra=fut)      # an awaitable is registered, yet the value must stop the chain at once
                 return r[1]
             return plumpy.ToContext() if r == 'T' else r
+        # step signatures: `(self)`, a decorator-style wrapper `(self, *args, **kwargs)`, keyword-only extras - all take ONE
+        # positional argument, self
+        if f % 3 == 1:
+            def step(self, *args, **kwargs):
+                return body(self)
+        elif f % 3 == 2:
+            def step(self, *, dry_run=False):
+                return body(self)
+        else:
+            def step(self):
+                return body(self)
         step.__name__ = f's{f}'
         return step
 
     def mk_pred(p):
         def pred(self):
-            return self._oracle.pred(p)
+            b = self._oracle.pred(p)
+            # predicates answer with truthy / falsy values, not necessarily the bools True / False
+            if b:
+                return True if p % 3 == 0 else 1 if p % 3 == 1 else 2
+            return False if p % 3 == 0 else 0 if p % 3 == 1 else None
         pred.__name__ = f'p{p}'
         return pred
 
